@@ -284,10 +284,12 @@ def _is_table_store(s):
 def _worklist(run, P):
     from .util import find, first, has
     F = P.func(f"{DATA}.SymbolKindFinder.__call__")
-    r = first("V_res = SymbolKindTable()", F.node)
-    if r[0] is None:
+    tabs = [s_ for s_ in ast.walk(F.node) if isinstance(s_, ast.Assign) and len(s_.targets) == 1
+            and isinstance(s_.targets[0], ast.Name) and isinstance(s_.value, ast.Call)
+            and dotted(s_.value.func) == "SymbolKindTable"]
+    if len(tabs) != 1:
         raise AnalysisError("SymbolKindFinder.__call__: result table not found")
-    res = r[1]["V_res"]
+    res = tabs[0].targets[0].id
     # the progress flag: a local assigned both True and False
     flags = {}
     for x in ast.walk(F.node):
